@@ -35,7 +35,7 @@ RULE = ("program = constructor variant (arrays / lists / int dtype / strided / r
         " Round-5 classes: a copy.deepcopy / pickle duplicate taken mid-program and continued in lock-step with the object; a 'threads' kind (programs replayed concurrently on separate objects)."
         " Round-6 classes: every processing method must return the object it was called on (asserted on every applied operation)."
         " Round-7 classes: rare interpolate(n = 66 000..90 000) steps, resampling to the same number of points.")
-REQUIRED_MONITORS = ["threads:weaver", "c09:duplicate", "weaver_invariant", "c09:caller_arrays", "c09:original_unchanged", "c09:restore_differential"]
+REQUIRED_MONITORS = ["threads:weaver", "threads:first_use:weaver_cold", "threads:first_use_yields_injected", "c09:duplicate", "weaver_invariant", "c09:caller_arrays", "c09:original_unchanged", "c09:restore_differential"]
 ASSUMPTIONS = ["operations are generated with admissible arguments only; an exception from such an operation is reported",
                "indices-based truncation is only issued while working and reference series are the same samples"]
 NSHARDS = 16
@@ -316,7 +316,7 @@ def run_case(ctx, kind_, idx):
 
 
 def run(ctx, spec):
-    if spec["kind"] == "threads":      # concurrent independent requests vs their sequential answers
+    if spec["kind"] in ("threads", "threads_cold"):      # concurrent independent requests vs their sequential answers
         return _jobs.run(ctx, spec, ["weaver"])
     if spec["kind"] == "suite":     # the repository's own tests with the Weaver state monitor attached
         from .. import suite
@@ -329,8 +329,8 @@ def run(ctx, spec):
 
 
 def replay(ctx, case):
-    if case["kind"] == "threads":
-        return _jobs.run_case(ctx, ["weaver"], case["idx"])
+    if case["kind"] in ("threads", "threads_cold"):
+        return _jobs.run_case(ctx, ["weaver"], case["idx"], cold=case["kind"] == "threads_cold")
     Slot.ctx = ctx
     weaver_inv.install()
     run_case(ctx, case["kind"], case["idx"])
